@@ -125,10 +125,11 @@ Theorem C16_subject_injective : forall a b, subject_of a = subject_of b -> a = b
 Proof. exact subject_of_injective. Qed.
 Print Assumptions C16_subject_injective.
 
-Example C16_subject_example :
+Theorem C16_subject_example :
   subject_of (mk_bc None LCreated) = "state_changed.None.created" /\
   subject_of (mk_bc (Some LRunning) LKilled) = "state_changed.running.killed".
-Proof. split; reflexivity. Qed.
+Proof. exact subject_examples. Qed.
+Print Assumptions C16_subject_example.
 
 (* ---- tolerated failures: on_entered goes on normally, nothing was sent, nothing else changed; any other
    exception escapes *)
@@ -195,6 +196,22 @@ Theorem C16_closed_no_broadcast :
   forall xw b, subscribed_broadcast (base xw) = false -> x_step xw (XSendBc b) = xw.
 Proof. exact send_bc_unsubscribed. Qed.
 Print Assumptions C16_closed_no_broadcast.
+
+(* every run: a closed process receives nothing any more, an open one everything but the state-change announcements *)
+Theorem C16_closed_receives_nothing :
+  forall c es xw, x_run c es = Some xw -> closed (base xw) = true ->
+    (forall m, x_step xw (XSendRpc m) = xw <| replies := replies xw ++ [RpUnroutable] |>) /\
+    (forall b, x_step xw (XSendBc b) = xw).
+Proof. exact closed_receives_nothing. Qed.
+Print Assumptions C16_closed_receives_nothing.
+
+Theorem C16_open_receives :
+  forall c es xw, x_run c es = Some xw -> closed (base xw) = false ->
+    (forall m, x_step xw (XSendRpc m) =
+               xw <| inflight := inflight xw ++ [XmRpc (List.length (replies xw)) m] |> <| replies := replies xw ++ [RpPending] |>) /\
+    (forall b, bc_filtered (b_subject b) = false -> x_step xw (XSendBc b) = xw <| inflight := inflight xw ++ [XmBc b] |>).
+Proof. exact open_receives. Qed.
+Print Assumptions C16_open_receives.
 
 (* the hypotheses are satisfiable: a run with an in-step pause cancelled by play, status, pause_all / play_all,
    termination and an unroutable kill (evaluated) *)
